@@ -155,6 +155,14 @@ impl<'ctx> Ledger<'ctx> {
         ctx: &ReportContext<'ctx>,
         query: &BalanceQuery<'ctx>,
     ) -> Result<Cow<'_, Balance<'ctx>>, QueryError> {
+        #[cfg(feature = "verif")]
+        crate::verif::emit("query.balance", || {
+            format!(
+                "{}|{:?}",
+                if query.require_recompute() { "refold" } else { "raw" },
+                query.conversion.as_ref().map(|c| c.strategy)
+            )
+        });
         let balance = if !query.require_recompute() {
             Cow::Borrowed(&self.raw_balance)
         } else {
